@@ -312,3 +312,12 @@ Proof. split; [apply sched_in_range | apply sched_repeats_last]. Qed.
 Theorem align_first_vector_meets_upper k hu hl b :
   ket_on_upper KetHamBra k hu hl b = Some true /\ (b <> fresh 0 -> ket_on_upper BraHamKet k hu hl b = Some false).
 Proof. split; [apply first_vector_on_upper | apply last_vector_on_lower]. Qed.
+
+(* renorm=True inside the split keeps the state normalised for exactly two of the six cutoff modes *)
+Theorem split_renorm_table : forall m,
+  (keeps_frobenius_norm m = true <-> (m = CSum2 \/ m = CRsum2)) /\ dmrg2_normalised_after_truncation m = true.
+Proof.
+  intros m. split; [|destruct m; reflexivity].
+  destruct m; cbn; split; intros H; try reflexivity; try discriminate; auto;
+    destruct H as [H|H]; discriminate.
+Qed.
